@@ -780,7 +780,7 @@ theorem giName_congr {env : Env} {a b : Target} (h1 : a.ns = b.ns) (h2 : a.name 
   unfold giName; rw [h1, h2]
 
 theorem walk_found {env : Env} {st : NsState} {target : Target} :
-    ∀ (fuel : Nat) (origin : Target), ancestorWalk env st target fuel (some origin) = .found →
+    ∀ (fuel : Nat) (origin : Target), ancestorWalk env st target fuel origin = .found →
       giName env target ∈ ancestorChain env st fuel (some origin) := by
   intro fuel
   induction fuel with
@@ -790,54 +790,22 @@ theorem walk_found {env : Env} {st : NsState} {target : Target} :
     simp only [ancestorWalk] at h
     simp only [ancestorChain]
     split at h
-    · cases h
-    · split at h
-      · rename_i hsame
-        simp only [Bool.and_eq_true, beq_iff_eq] at hsame
-        rw [giName_congr hsame.1 hsame.2]
-        exact List.mem_cons_self
-      · split at h
-        · cases h
-        · cases hp : origin.parent with
-          | none => rw [hp] at h; cases h
-          | some ref =>
-            rw [hp] at h
-            simp only at h ⊢
-            cases hl : lookupGiname env st ref with
-            | none => rw [hl] at h; cases h
-            | some p =>
-              rw [hl] at h
-              exact List.mem_cons_of_mem _ (ih p h)
-
-theorem walk_reachedRoot {env : Env} {st : NsState} {target : Target} :
-    ∀ (fuel : Nat) (origin : Target), ancestorWalk env st target fuel (some origin) = .reachedRoot →
-      rootClass ∈ ancestorChain env st fuel (some origin) := by
-  intro fuel
-  induction fuel with
-  | zero => intro origin h; simp [ancestorWalk] at h
-  | succ n ih =>
-    intro origin h
-    simp only [ancestorWalk] at h
-    simp only [ancestorChain]
-    split at h
-    · rename_i hroot
-      have : giName env origin = rootClass := by simpa using hroot
-      rw [this]
+    · rename_i hsame
+      simp only [Bool.and_eq_true, beq_iff_eq] at hsame
+      rw [giName_congr hsame.1 hsame.2]
       exact List.mem_cons_self
     · split at h
       · cases h
-      · split at h
-        · cases h
-        · cases hp : origin.parent with
-          | none => rw [hp] at h; cases h
-          | some ref =>
-            rw [hp] at h
-            simp only at h ⊢
-            cases hl : lookupGiname env st ref with
-            | none => rw [hl] at h; cases h
-            | some p =>
-              rw [hl] at h
-              exact List.mem_cons_of_mem _ (ih p h)
+      · cases hp : origin.parent with
+        | none => rw [hp] at h; cases h
+        | some ref =>
+          rw [hp] at h
+          simp only at h ⊢
+          cases hl : lookupGiname env st ref with
+          | none => rw [hl] at h; cases h
+          | some p =>
+            rw [hl] at h
+            exact List.mem_cons_of_mem _ (ih p h)
 
 end GIVerif.Naming
 
